@@ -412,6 +412,7 @@ def read(
         # on the try/except here, which acts as a temporary fix
         # pending decisions on the best way to handle CDL with only
         # header or coordinate info.
+        fields = None
         try:
             fields = netcdf.read(
                 filename,
@@ -442,6 +443,14 @@ def read(
                     "Unable to convert netCDF to field construct(s) because "
                     "there is missing data."
                 )
+        finally:
+            if fields is None:
+                # The read failed: make sure that no dataset that it
+                # opened is left open
+                try:
+                    netcdf.file_close()
+                except Exception:
+                    pass
     elif cdl:
         raise IOError(
             f"Can't determine format of file {filename} "
